@@ -161,6 +161,13 @@ def build(cls, case, fem):
                     expected.setdefault((int(p), a), 0.0)
                     if expected[(int(p), a)] != 0.0:
                         expected[(int(p), a)] = None  # overlapping boundaries with different values: either is admissible
+    if cls == "mixed" and case["pseed"] % 2 == 0:
+        # a boundary on the THIRD field of the container (volume ratio prescribed in every second cell)
+        nJ = fc.fields[2].values.shape[0]
+        mJ = np.zeros(nJ, bool)
+        mJ[::2] = True
+        bounds["vol"] = fem.Boundary(fc.fields[2], mask=mJ, value=1.01)
+        expected[("field", 2)] = (np.where(mJ)[0], 1.01)
     return mesh, info, fc, bounds, make_items, X, expected
 
 
@@ -231,7 +238,11 @@ def check(cls, case, rec):
     u_res = res.x[0].values
     worst = 0.0
     for (p, c_), v in expected.items():
-        if v is not None:
+        if p == "field":
+            idx, val = v
+            worst = max(worst, float(np.abs(np.asarray(res.x[c_].values).ravel()[idx] - val).max()))
+            rec.label("boundary-on-the-third-field")
+        elif v is not None:
             worst = max(worst, abs(float(u_res[p, c_]) - v))
     rec.close("field-carries-boundary-values", worst, ulp, {"arrayvalue": case["arrayvalue"]})
     rec.close("reported-norm<tol", float(res.fnorms[-1]), tol)
